@@ -57,10 +57,10 @@ def impl(which, a, dt, history=None, dtype=float):
 HISTORIES = [None, None, 'reset_values', 'add_series', 'inplace_then_reset_values']
 
 
-def mk(which, a, dt, out, rtol, pps=0, nwin=0):
+def mk(which, a, dt, out, rtol, pps=0, nwin=0, g=9.81):
     c = np.pi / (2 * 9.81)
     coq = ('{| c_which := %d; c_dt := %s; c_a := %s; c_c := %s; c_g := %s; c_thr := %s; c_pps := %d; c_nwin := %d; c_out := %s; c_rtol := %s |}'
-           % (which, q(dt), qlist(a), q(c), q(9.81), q(0.025), pps, nwin, qlist(out), q(rtol)))
+           % (which, q(dt), qlist(a), q(c), q(g), q(0.025), pps, nwin, qlist(out), q(rtol)))
     rp = {'function': 'eqsig.im.' + NAMES[which], 'args': {'dt': dt, 'values': list(map(float, a))}, 'impl': out}
     return Case(coq, rp, NAMES[which], nontrivial=(len(a) >= 3 and any(x != 0 for x in a)),
                 klass='%s/%s' % (NAMES[which], 'exact' if rtol <= 1e-12 else 'tol'))
@@ -142,6 +142,49 @@ def run(rep, rng, tier):
             rep.violation(NAMES[6], {'function': NAMES[6], 'args': {'dt': dt, 'values': list(a)}, 'impl_error': str(r)})
             continue
         cases.append(mk(6, a, dt, r, 1e-10, pps, nwin))
+    # the 0.025 g gate AT the boundary: windows whose binary64 peak  fl(|a|/9.81)  is exactly 0.025 (reached, so the window
+    # counts), one ulp below (does not count) and one ulp above.  In exact arithmetic fl(0.025*9.81)/9.81 is not 0.025, so
+    # for these cases the model is given the implementation's own quotient array  values/9.81  (as exact rationals) with
+    # g := 1: the sign of the binary64 difference pga - 0.025 is the sign of the exact difference, nothing is fragile.
+    nb = 0
+    for k in range(12 if tier == 'quick' else 120):
+        dt = rng.choice([0.25, 0.125, 0.0625])
+        pps = int(1 / dt)
+        secs = rng.randint(2, 4)
+        n = secs * pps + 1 + rng.randint(0, pps - 1)
+        peak = 0.025 * 9.81
+        while peak / 9.81 > 0.025:
+            peak = np.nextafter(peak, 0.0)
+        while peak / 9.81 < 0.025:
+            peak = np.nextafter(peak, 1.0)
+        if peak / 9.81 != 0.025:
+            continue
+        a = np.array([rng.choice([-1, 1]) * peak * rng.choice([0.0, 0.25, 0.5, 0.75]) for _ in range(n)])
+        for w in range(secs):                       # per window: exactly at the gate / just below / just above / clearly below
+            kind = rng.choice(['at', 'at', 'below', 'above', 'low'])
+            j = w * pps + rng.randint(1, pps - 1)   # interior sample: belongs to this window only
+            v = {'at': peak, 'below': np.nextafter(peak, 0.0), 'above': np.nextafter(peak, 1.0), 'low': 0.5 * peak}[kind]
+            while kind == 'below' and v / 9.81 >= 0.025:
+                v = np.nextafter(v, 0.0)
+            while kind == 'above' and v / 9.81 <= 0.025:
+                v = np.nextafter(v, 1.0)
+            a[j] = rng.choice([-1, 1]) * v
+        fr_len = any(len(np.arange(s0 * dt, s0 * dt + 1, dt)) != pps for s0 in range(0, secs * pps, pps))
+        if fr_len:
+            fragile += 1
+            continue
+        r = guarded(impl, 6, a, dt)
+        if isinstance(r, ImplError):
+            rep.violation(NAMES[6], {'function': NAMES[6], 'args': {'dt': dt, 'values': list(a)}, 'impl_error': str(r)})
+            continue
+        nwin = int(np.arange(0, len(a))[-1] * dt)
+        c = mk(6, a / 9.81, dt, r, 1e-10, pps, nwin, g=1.0)
+        c.site = NAMES[6] + '[window peak at the 0.025 g gate]'
+        c.replay['args']['values'] = list(map(float, a))
+        c.replay['note'] = 'model run on the binary64 quotients values/9.81 with g := 1 (gate decided on the same binary64 numbers as the code)'
+        cases.append(c)
+        nb += 1
+    rep.extra['gate_boundary_cases'] = nb
     rep.extra['fragile_skipped'] = fragile
     rep.correspond('model.K_C09', 'check_case', cases, describe='model_out %s')
 
